@@ -8,14 +8,19 @@ import (
 	"encoding/json"
 	"errors"
 	"fmt"
+	"io"
 	"net/http"
+	"net/http/httptest"
 	"net/url"
 	"os"
+	"os/exec"
 	"path/filepath"
 	"regexp"
 	"sort"
 	"strconv"
 	"strings"
+	"sync"
+	"time"
 	"unicode/utf8"
 
 	vegeta "github.com/tsenart/vegeta/v12/lib"
@@ -163,6 +168,8 @@ type httpCase struct {
 	Targets     []specTarget      `json:"targets"`
 	Legal       bool              `json:"legal"`        // produced by the grammar (not mutated)
 	CommentTrap bool              `json:"comment_trap"` // a comment run directly between two bare request lines
+	LongLine    int               `json:"long_line,omitempty"`
+	NilDefaults bool              `json:"nil_defaults,omitempty"` // the default header map is nil
 }
 
 var pads = []string{"", "", "", " ", "  ", "\t", " \t", "\r", "\v", "\f "}
@@ -228,6 +235,23 @@ func genVal(r *kit.Rng) string {
 	return "v" + strconv.Itoa(r.Pick(1000))
 }
 
+// sizes straddling bufio's default buffer (4096) and bufio.Scanner's token limit (64 KiB)
+var longSizes = []int{4095, 4096, 4097, 8193, 20000, 65400}
+var longSizesJSON = []int{4095, 4096, 4097, 8200, 65536, 70000, 140000}
+
+// wantLong > 0: the next generated file carries one line of about that length
+var wantLong int
+
+func longText(r *kit.Rng, n int) string {
+	const alpha = "abcdefghijklmnopqrstuvwxyz0123456789 :/-"
+	b := make([]byte, n)
+	for i := range b {
+		b[i] = alpha[r.Pick(len(alpha))]
+	}
+	b[0], b[n-1] = 'L', 'l'
+	return string(b)
+}
+
 func genComment(r *kit.Rng) string {
 	return pad(r) + "#" + r.PickStr([]string{"", " a comment", "GET http://commented/", " X: 1", "@file", "#", " trailing  ", "\tté"}) + pad(r)
 }
@@ -288,12 +312,22 @@ func genBody(r *kit.Rng) []byte {
 func genHTTPCase(r *kit.Rng, work string, id int) httpCase {
 	hc := httpCase{Work: work, Files: map[string][]byte{}, Legal: true}
 	hc.Defaults = genDefaults(r)
+	if len(hc.Defaults) == 0 && r.Chance(0.5) {
+		hc.Defaults = []dflt{} // empty but non-nil map (nil otherwise)
+	}
 	hc.DefaultBody = genBody(r)
 	n := 1 + r.Pick(50)
 	if r.Chance(0.6) {
 		n = 1 + r.Pick(6)
 	}
 	allowTrap := r.Chance(0.5)
+	longAt := -1 // one target of some files carries a header line near a buffer boundary
+	if wantLong > 0 {
+		if n > 4 {
+			n = 1 + r.Pick(4)
+		}
+		longAt = r.Pick(n)
+	}
 	var lines []string
 	filler := func(max int, blanks bool) (out []string, hasBlank bool) {
 		k := r.Pick(max + 1)
@@ -329,6 +363,9 @@ func genHTTPCase(r *kit.Rng, work string, id int) httpCase {
 		if r.Chance(0.35) {
 			nh = 0
 		}
+		if i == longAt && nh == 0 {
+			nh = 1
+		}
 		tail := 0 // comment lines after the request line of a block without headers/body
 		for j := 0; j < nh; j++ {
 			if r.Chance(0.15) {
@@ -341,6 +378,12 @@ func genHTTPCase(r *kit.Rng, work string, id int) httpCase {
 				k = t.Headers[r.Pick(len(t.Headers))].Key
 			}
 			v := genVal(r)
+			if i == longAt && j == 0 {
+				// the whole line (key, colon, value) lands on or next to the boundary
+				sz := wantLong
+				v = longText(r, sz-len(k)-2+r.Pick(3))
+				hc.LongLine = sz
+			}
 			t.Headers = append(t.Headers, hdrLine{k, v})
 			lines = append(lines, pad(r)+k+":"+r.PickStr([]string{"", " ", " ", "  ", "\t"})+v+pad(r))
 		}
@@ -404,7 +447,7 @@ func expectedView(hc *httpCase, t specTarget) tview {
 }
 
 func mkDefaults(ds []dflt) http.Header {
-	if len(ds) == 0 && false {
+	if ds == nil {
 		return nil
 	}
 	h := http.Header{}
@@ -660,6 +703,7 @@ type jsonCase struct {
 	Targets     []tview             `json:"targets"` // expected decoded (own) values, in order
 	Legal       bool                `json:"legal"`
 	Encoded     bool                `json:"encoded"` // every line was written by NewJSONTargetEncoder
+	LongLine    int                 `json:"long_line,omitempty"`
 }
 
 func genJSONTarget(r *kit.Rng, i int, broken bool) vegeta.Target {
@@ -688,18 +732,34 @@ func genJSONTarget(r *kit.Rng, i int, broken bool) vegeta.Target {
 			}
 			t.Header[k] = append(t.Header[k], v)
 		}
+		// a key whose value slice is nil or empty (the encoder writes null / [])
+		if r.Chance(0.08) {
+			t.Header["Nil-Values"] = nil
+		}
+		if r.Chance(0.08) {
+			t.Header["Empty-Values"] = []string{}
+		}
+	} else if r.Chance(0.2) {
+		t.Header = http.Header{} // empty but not nil
+	}
+	if t.Body == nil && r.Chance(0.1) {
+		t.Body = []byte{} // empty but not nil
 	}
 	return t
 }
 
+// encodeTargets writes all targets through ONE encoder into one buffer (as a producer of a
+// targets file does) and returns the line written for each.
 func encodeTargets(ts []vegeta.Target) ([]string, error) {
 	var lines []string
+	var buf bytes.Buffer
+	enc := vegeta.NewJSONTargetEncoder(&buf)
 	for i := range ts {
-		var buf bytes.Buffer
-		if err := vegeta.NewJSONTargetEncoder(&buf).Encode(&ts[i]); err != nil {
+		before := buf.Len()
+		if err := enc.Encode(&ts[i]); err != nil {
 			return nil, err
 		}
-		lines = append(lines, buf.String())
+		lines = append(lines, string(buf.Bytes()[before:]))
 	}
 	return lines, nil
 }
@@ -765,10 +825,27 @@ func genJSONCase(r *kit.Rng) (jsonCase, []vegeta.Target, []string) {
 	if r.Chance(0.6) {
 		n = 1 + r.Pick(6)
 	}
+	if wantLong > 0 && n > 4 {
+		n = 1 + r.Pick(4)
+	}
 	ts := make([]vegeta.Target, n)
 	broken := r.Chance(0.15)
 	for i := range ts {
 		ts[i] = genJSONTarget(r, i, broken)
+	}
+	if wantLong > 0 {
+		// one line beyond bufio.Reader's buffer (4096) or beyond 64 KiB: a long header value or body
+		k := r.Pick(n)
+		sz := wantLong
+		if r.Chance(0.5) {
+			if ts[k].Header == nil {
+				ts[k].Header = http.Header{}
+			}
+			ts[k].Header["X-Long"] = append(ts[k].Header["X-Long"], longText(r, sz))
+		} else {
+			ts[k].Body = []byte(longText(r, sz))
+		}
+		jc.LongLine = sz
 	}
 	lines, err := encodeTargets(ts)
 	if err != nil {
@@ -1083,6 +1160,14 @@ func replayC14(c *run.Ctx, s *kit.Summary) {
 		panic(err)
 	}
 	st := &kit.Stream{Name: "replay"}
+	if strings.HasPrefix(rec.Kind, "attack_") {
+		var gc glueCase
+		if err := json.Unmarshal(rec.Input, &gc); err != nil {
+			panic(err)
+		}
+		runGlue(c, s, gc, 0)
+		return
+	}
 	if strings.HasPrefix(rec.Kind, "http") {
 		var hc httpCase
 		if err := json.Unmarshal(rec.Input, &hc); err != nil {
@@ -1170,6 +1255,29 @@ func runC14(c *run.Ctx, s *kit.Summary) {
 		st.Diff(c.Driver, s)
 	}
 
+	// 0b. the attack command's glue (format switch, -header/-body defaults, eager/lazy selection)
+	{
+		var wg sync.WaitGroup
+		var sums []*kit.Summary
+		id := 0
+		for rep := 0; rep < c.N(1, 3); rep++ {
+			for _, gc := range []glueCase{{"http", false}, {"http", true}, {"json", false}, {"json", true}} {
+				sub := kit.NewSummary("C14", c.Seed, c.Tier)
+				sums = append(sums, sub)
+				wg.Add(1)
+				go func(gc glueCase, id int, sub *kit.Summary) {
+					defer wg.Done()
+					runGlue(c, sub, gc, id)
+				}(gc, id, sub)
+				id++
+			}
+		}
+		wg.Wait()
+		for _, sub := range sums {
+			mergeSummary(s, sub)
+		}
+	}
+
 	// 1. scanner and method regexp
 	{
 		ls := &kit.Stream{Name: "c14.lines"}
@@ -1209,10 +1317,26 @@ func runC14(c *run.Ctx, s *kit.Summary) {
 	{
 		st := &kit.Stream{Name: "c14.http"}
 		ra := &kit.Stream{Name: "c14.http.readall"}
-		for i := 0; i < c.N(2500, 120000); i++ {
-			hc := genHTTPCase(r, work, i)
+		// streams without any target: exhaustion at once, ReadAllTargets reports ErrNoTargets
+		var special []httpCase
+		for _, src := range []string{"", "\n", "  \n\t\n", "# only a comment\n", "# c", "\n# c\n\n#d\n", "\r\n"} {
+			special = append(special, httpCase{Work: "", Src: src, Files: map[string][]byte{}, Legal: true, Defaults: []dflt{{"X", []string{"d"}, 4}}})
+		}
+		for i := 0; i < c.N(2500, 120000)+len(special); i++ {
+			var hc httpCase
+			if i < len(special) {
+				hc = special[i]
+				s.Count("http:empty_stream")
+			} else {
+				wantLong = 0
+				if k := i - len(special); k < len(longSizes)*c.N(1, 8) {
+					wantLong = longSizes[k%len(longSizes)]
+				}
+				hc = genHTTPCase(r, work, i)
+				wantLong = 0
+			}
 			writeFiles(&hc)
-			mutated := r.Chance(0.2)
+			mutated := i >= len(special) && hc.LongLine == 0 && r.Chance(0.2)
 			if mutated {
 				hc.Src = gen.Mutate(r, hc.Src)
 				hc.Legal = false
@@ -1233,6 +1357,12 @@ func runC14(c *run.Ctx, s *kit.Summary) {
 			if hc.CommentTrap {
 				s.Count("http:comment_between_bare_request_lines")
 			}
+			if hc.LongLine > 0 {
+				s.Count(fmt.Sprintf("http:line_length~%d", hc.LongLine))
+			}
+			if hc.Defaults == nil {
+				s.Count("http:nil_default_map")
+			}
 			for _, d := range hc.Defaults {
 				if d.Cap > len(d.Vals) {
 					s.Count("http:default_with_spare_capacity")
@@ -1247,7 +1377,7 @@ func runC14(c *run.Ctx, s *kit.Summary) {
 				s.Sample(map[string]interface{}{"op": "c14.http", "src": hc.Src, "defaults": hc.Defaults, "impl": res.line})
 			}
 			// eager mode: ReadAllTargets over a fresh targeter
-			if i%3 == 0 {
+			if i%3 == 0 || i < len(special) {
 				hdr := mkDefaults(hc.Defaults)
 				tr := vegeta.NewHTTPTargeter(strings.NewReader(hc.Src), hc.DefaultBody, hdr)
 				var tgts []vegeta.Target
@@ -1267,7 +1397,7 @@ func runC14(c *run.Ctx, s *kit.Summary) {
 				}
 				ra.Add(httpOp(&hc, "c14.http.readall", -1), line)
 				// oracle: eager = the lazily produced stream (first error decides)
-				oracleReadAll(s, "http", &hc, res.codes, len(tgts), err, httpErrCode)
+				oracleReadAll(s, "http", &hc, res.codes, res.returned, tgts, err, httpErrCode)
 			}
 			for p := range hc.Files {
 				os.Remove(p)
@@ -1282,11 +1412,37 @@ func runC14(c *run.Ctx, s *kit.Summary) {
 		st := &kit.Stream{Name: "c14.json"}
 		ra := &kit.Stream{Name: "c14.json.readall"}
 		var encOps, encImpl, imgOps, imgImpl []string
-		for i := 0; i < c.N(2500, 120000); i++ {
-			jc, ts, lines := genJSONCase(r)
-			if r.Chance(0.15) {
+		var specialJ []string = []string{"", "\n", " \n\t\r\n", "{\"method\":\"GET\",\"url\":\"http://unterminated/\"}"}
+		for i := 0; i < c.N(2500, 120000)+len(specialJ); i++ {
+			var jc jsonCase
+			var ts []vegeta.Target
+			var lines []string
+			if i < len(specialJ) {
+				jc = jsonCase{Src: specialJ[i], Legal: true, Defaults: map[string][]string{"X": {"d"}}}
+				s.Count("json:empty_stream")
+			} else {
+				wantLong = 0
+				if k := i - len(specialJ); k < len(longSizesJSON)*c.N(1, 8) {
+					wantLong = longSizesJSON[k%len(longSizesJSON)]
+				}
+				jc, ts, lines = genJSONCase(r)
+				wantLong = 0
+			}
+			if i >= len(specialJ) && jc.LongLine == 0 && r.Chance(0.15) {
 				jc.Src = gen.Mutate(r, jc.Src)
 				jc.Legal = false
+			}
+			if jc.LongLine > 0 {
+				s.Count(fmt.Sprintf("json:line_length~%d", jc.LongLine))
+			}
+			for k := range ts {
+				for _, vs := range ts[k].Header {
+					if vs == nil {
+						s.Count("json:nil_value_slice")
+					} else if len(vs) == 0 {
+						s.Count("json:empty_value_slice")
+					}
+				}
 			}
 			n := len(ts) + 2
 			res := runJSON(s, &jc, n, r)
@@ -1300,7 +1456,7 @@ func runC14(c *run.Ctx, s *kit.Summary) {
 			if i < 2 {
 				s.Sample(map[string]interface{}{"op": "c14.json", "src": jc.Src, "impl": res.line})
 			}
-			if i%3 == 0 {
+			if i%3 == 0 || i < len(specialJ) {
 				tr := vegeta.NewJSONTargeter(strings.NewReader(jc.Src), jc.DefaultBody, mkJSONDefaults(jc.Defaults, nil))
 				tgts, err := vegeta.ReadAllTargets(tr)
 				line := ""
@@ -1313,7 +1469,7 @@ func runC14(c *run.Ctx, s *kit.Summary) {
 					}
 				}
 				ra.Add(jsonOp(&jc, "c14.json.readall", -1), line)
-				oracleReadAll(s, "json", &jc, res.codes, len(tgts), err, jsonErrCode)
+				oracleReadAll(s, "json", &jc, res.codes, res.returned, tgts, err, jsonErrCode)
 			}
 			// encoder model and image decoder on what the real encoder wrote
 			for k := range ts {
@@ -1389,6 +1545,135 @@ func runC14(c *run.Ctx, s *kit.Summary) {
 	}
 }
 
+// ---------------------------------------------------------------- the attack command's glue
+
+type glueCase struct {
+	Format string `json:"format"`
+	Lazy   bool   `json:"lazy"`
+}
+
+type glueReq struct {
+	Method, Path string
+	Header       http.Header
+	Body         string
+}
+
+// runGlue runs the real `vegeta attack` (one worker) against a recording server: the format
+// switch, the default header and body given on the command line, and the eager/lazy selection
+// (attack.go) must hand the described targets to the attacker — lazily each exactly once and in
+// order, then the attack ends; eagerly the same list in rotation.
+func runGlue(c *run.Ctx, s *kit.Summary, gc glueCase, id int) {
+	if _, err := os.Stat(c.Vegeta); err != nil {
+		s.Skipped["glue:no_vegeta_binary"]++
+		return
+	}
+	var mu sync.Mutex
+	var reqs []glueReq
+	srv := httptest.NewServer(http.HandlerFunc(func(w http.ResponseWriter, rq *http.Request) {
+		b, _ := io.ReadAll(rq.Body)
+		mu.Lock()
+		reqs = append(reqs, glueReq{rq.Method, rq.URL.Path, rq.Header.Clone(), string(b)})
+		mu.Unlock()
+	}))
+	defer srv.Close()
+	dir := filepath.Join(c.Work, fmt.Sprintf("glue%d", id))
+	os.MkdirAll(dir, 0o755)
+	bodyFile, dfltFile, tf := filepath.Join(dir, "t1.body"), filepath.Join(dir, "default.body"), filepath.Join(dir, "targets")
+	os.WriteFile(bodyFile, []byte("file-body-1"), 0o644)
+	os.WriteFile(dfltFile, []byte("default-body"), 0o644)
+	want := []glueReq{
+		{"GET", "/t0", http.Header{"X-Dflt": {"dv"}, "X-Both": {"dflt", "own0"}, "X-Own": {"o0"}}, "default-body"},
+		{"POST", "/t1", http.Header{"X-Dflt": {"dv"}, "X-Both": {"dflt"}}, "file-body-1"},
+		{"PUT", "/t2", http.Header{"X-Dflt": {"dv"}, "X-Both": {"dflt"}}, "default-body"},
+	}
+	var src string
+	if gc.Format == "http" {
+		src = "# targets\nGET " + srv.URL + "/t0\nX-Own: o0\nX-Both: own0\n\nPOST " + srv.URL + "/t1\n@" + bodyFile + "\nPUT " + srv.URL + "/t2\n"
+	} else {
+		var buf bytes.Buffer
+		enc := vegeta.NewJSONTargetEncoder(&buf)
+		enc.Encode(&vegeta.Target{Method: "GET", URL: srv.URL + "/t0", Header: http.Header{"X-Own": {"o0"}, "X-Both": {"own0"}}})
+		enc.Encode(&vegeta.Target{Method: "POST", URL: srv.URL + "/t1", Body: []byte("file-body-1")})
+		enc.Encode(&vegeta.Target{Method: "PUT", URL: srv.URL + "/t2"})
+		src = buf.String()
+	}
+	os.WriteFile(tf, []byte(src), 0o644)
+	args := []string{"attack", "-targets", tf, "-format", gc.Format, "-rate", "100/1s", "-workers", "1", "-max-workers", "1",
+		"-header", "X-Dflt: dv", "-header", "X-Both: dflt", "-body", dfltFile, "-output", os.DevNull}
+	if gc.Lazy {
+		args = append(args, "-lazy", "-duration", "0")
+	} else {
+		args = append(args, "-duration", "300ms")
+	}
+	cmd := exec.Command(c.Vegeta, args...)
+	cmd.Env = append(os.Environ(), "VEGETA_VERIF_DRIVER=")
+	var stderr bytes.Buffer
+	cmd.Stderr = &stderr
+	if err := cmd.Start(); err != nil {
+		s.Skipped["glue:cannot_start_vegeta"]++
+		return
+	}
+	done := make(chan error, 1)
+	go func() { done <- cmd.Wait() }()
+	timedOut := false
+	select {
+	case <-done:
+	case <-time.After(20 * time.Second):
+		timedOut = true
+		cmd.Process.Kill()
+		<-done
+	}
+	mu.Lock()
+	got := append([]glueReq{}, reqs...)
+	mu.Unlock()
+	s.Case(fmt.Sprint("glue:", gc), true)
+	s.Count(fmt.Sprintf("glue:format=%s,lazy=%v", gc.Format, gc.Lazy))
+	bad := ""
+	match := func(g, w glueReq) string {
+		if g.Method != w.Method || g.Path != w.Path || g.Body != w.Body {
+			return fmt.Sprintf("got %s %s body %q, want %s %s body %q", g.Method, g.Path, g.Body, w.Method, w.Path, w.Body)
+		}
+		for _, k := range []string{"X-Dflt", "X-Both", "X-Own"} {
+			if !eqStrs(g.Header[k], w.Header[k]) {
+				return fmt.Sprintf("%s %s: header %s got %q want %q", g.Method, g.Path, k, g.Header[k], w.Header[k])
+			}
+		}
+		return ""
+	}
+	for i, g := range got {
+		if gc.Lazy && i >= len(want) {
+			bad = fmt.Sprintf("lazy mode: %d requests for %d targets (a stream target was delivered again)", len(got), len(want))
+			break
+		}
+		if m := match(g, want[i%len(want)]); m != "" {
+			bad = fmt.Sprintf("request %d: %s", i, m)
+			break
+		}
+	}
+	if bad == "" {
+		switch {
+		case gc.Lazy && len(got) != len(want):
+			bad = fmt.Sprintf("lazy mode: %d requests for %d targets", len(got), len(want))
+		case gc.Lazy && timedOut:
+			bad = "lazy mode: the attack did not end after the last target"
+		case !gc.Lazy && len(got) <= len(want):
+			bad = fmt.Sprintf("eager mode: only %d requests in 300ms at 100/s over %d targets (no rotation); stderr: %s", len(got), len(want), tail(stderr.String(), 300))
+		}
+	}
+	if bad != "" {
+		s.Violate(kit.Violation{Kind: "attack_target_selection", What: "the attack command does not hand the described targets (with the command-line defaults) to the attacker",
+			Input: gc, Expected: "t0,t1,t2 (lazy: once each, in order; eager: in rotation) with -header/-body merged", Observed: bad,
+			Key: map[string]interface{}{"format": gc.Format, "lazy": gc.Lazy}})
+	}
+}
+
+func tail(s string, n int) string {
+	if len(s) > n {
+		return s[len(s)-n:]
+	}
+	return s
+}
+
 func corpusDir() string {
 	if exe, err := os.Executable(); err == nil {
 		d := filepath.Join(filepath.Dir(exe), "..", "corpus", "C14")
@@ -1397,6 +1682,19 @@ func corpusDir() string {
 		}
 	}
 	return "/verif/corpus/C14"
+}
+
+func mergeSummary(s, sub *kit.Summary) {
+	s.Evaluations += sub.Evaluations
+	for k, v := range sub.Dist {
+		s.CountN(k, v)
+	}
+	for k, v := range sub.Skipped {
+		s.Skipped[k] += v
+	}
+	for _, v := range sub.Violations {
+		s.Violate(v)
+	}
 }
 
 func bucket(n int) int {
@@ -1424,7 +1722,8 @@ func equalTargets(a, b *vegeta.Target) bool {
 
 // oracleReadAll: eager mode returns exactly the stream's targets in order; ErrNoTargets only
 // for an empty stream; any other error aborts.
-func oracleReadAll(s *kit.Summary, format string, input interface{}, codes []int, got int, err error, code func(error) int) {
+func oracleReadAll(s *kit.Summary, format string, input interface{}, codes []int, lazy []tview, tgts []vegeta.Target, err error, code func(error) int) {
+	got := len(tgts)
 	// the lazily observed stream: codes until the first non-zero
 	n := 0
 	first := 0
@@ -1447,6 +1746,14 @@ func oracleReadAll(s *kit.Summary, format string, input interface{}, codes []int
 	case first == 1:
 		if err != nil || got != n {
 			bad = fmt.Sprintf("expected %d targets, got %d (err %v)", n, got, err)
+		} else {
+			// exactly the stream's targets, in order (looked at after the whole read)
+			for k := 0; k < n && k < len(lazy); k++ {
+				if v := snapshot(&tgts[k]); !eqView(v, lazy[k]) {
+					bad = fmt.Sprintf("target %d: lazily %s, eagerly %s", k, showViewText(lazy[k]), showViewText(v))
+					break
+				}
+			}
 		}
 	default:
 		if err == nil || code(err) != first {
